@@ -55,7 +55,7 @@ def _sig(o, clause):
 def run(rep):
     rep.rule = ("XmlWriter.tla model-checked (TextIsData on every DOM in bounds) and bound to the real writer (every model DOM serialised by the real "
                 "node()/writexml and judged by TLC); then TLC (Gen_Xml) enumerates every hostile class string of length <=2 (quick; <=3 thorough, 4 simulated) "
-                "over 18 classes (< > & quotes ]]> &amp; comment, processing instruction, tag-like text, &#10;, braces, $, astral, RTL ...); each string is "
+                "over 21 classes (< > & quotes ]]> &amp; comment, processing instruction, tag-like text, &#10;, braces, $, astral, RTL ...); each string is "
                 "written into 26 text-bearing channels of one form (labels with/without ${refs}, hints, guidance, messages, choice labels and extra columns, "
                 "default, title, version, appearance, bind/instance/body/settings custom attributes, itext label/hint/choice label) and converted in both "
                 "print modes; the text recovered by ElementTree from the corresponding place must equal the source modulo whitespace cleaning (TLA+ Norm/"
@@ -90,7 +90,7 @@ def run(rep):
     t = copy.deepcopy(base["trace"]); t[0]["channels"][1]["rec"]["kids"].append({"k": "e", "tag": "output", "attrs": [], "kids": []}); cans.append(("element_injected", t))
     t = copy.deepcopy(base["trace"]); t[0]["skeleton_same"] = False; cans.append(("structure_changed_by_text", t))
     t = copy.deepcopy(base["trace"]); t[0]["channels"][2]["rec_p"] = {"k": "none"}; cans.append(("text_lost_in_pretty", t))
-    plain = {"p", "lt", "gt", "amp", "quot", "apos", "sp", "entity", "dollar", "astral", "rtl", "numref", "tag", "pi"}
+    plain = {"p", "lt", "gt", "amp", "quot", "apos", "sp", "entity", "dollar", "astral", "rtl", "numref", "tag", "pi", "zwnj", "rlm", "zwsp"}
     basep = next(o for o in ok if set(o["job"]["classes"]) <= plain and o["trace"][0]["default_place"] == "instance")
     t = copy.deepcopy(basep["trace"]); t[0]["default_place"] = "setvalue"; cans.append(("plain_default_became_an_action", t))
     a, _ = tlc.validate_traces("Trace_Xml", _xml.corpus._cfg("Trace_Xml.cfg", _xml.TRACE_CFG), [c[1] for c in cans] + [base["trace"]], shards=1, env={"PROP": PROP}, tag="canary")
